@@ -131,6 +131,9 @@ enum Ending {
     /// cancelled while parked; a value on its stack yields in its destructor (user code may do
     /// that), i.e. the coroutine passes through a yield while the cancel unwinds it
     CancelYieldInDrop,
+    /// the predecessor's JoinHandle is dropped at once and it ends by a panic: nobody fetches
+    /// the payload through join
+    DetachedPanic,
 }
 
 #[derive(Debug, Clone, Copy, PartialEq)]
@@ -142,6 +145,9 @@ enum First {
     Sleep,
     LocalRead,
     Yield,
+    /// the successor parks and is cancelled: its join must report Cancel - and not, say, the panic
+    /// payload of the stack's previous user
+    CancelledPark,
     /// a socket read that has to wait for its data (io calls look at the resume parameter first)
     IoRead,
 }
@@ -178,7 +184,16 @@ fn gen(seed: u64) -> Params {
     // panics per OS thread: if such a coroutine came back on another worker both workers would
     // keep a wrong count for good (nothing may claims anything about that). One worker: the
     // count is right again as soon as the unwinding is over
-    let rounds: Vec<(Ending, First, bool)> = rounds;
+    let mut rounds: Vec<(Ending, First, bool)> = rounds;
+    // drawn last: everything above is the same as before these variants existed
+    for rd in rounds.iter_mut() {
+        if r.chance(1, 6) {
+            rd.0 = Ending::DetachedPanic;
+        }
+        if r.chance(1, 6) {
+            rd.1 = First::CancelledPark;
+        }
+    }
     if rounds.iter().any(|r| r.0 == Ending::CancelYieldInDrop) {
         rt.workers = 1;
     }
@@ -244,7 +259,7 @@ pub fn run(seed: u64, mut ov: impl FnMut(&mut engine::Cfg)) -> ! {
                 rt::set_flag(&st2);
                 match ending {
                     Ending::Normal => coroutine::yield_now(),
-                    Ending::Panic => std::panic::panic_any(Scripted(pred_id)),
+                    Ending::Panic | Ending::DetachedPanic => std::panic::panic_any(Scripted(pred_id)),
                     Ending::CancelWhileParked => {
                         coroutine::park();
                         coroutine::park();
@@ -346,7 +361,23 @@ pub fn run(seed: u64, mut ov: impl FnMut(&mut engine::Cfg)) -> ! {
             _ => {}
         }
         let o = OPS.begin(format!("join of predecessor {} ({:?})", pred_id, ending));
-        let pr = ph.join();
+        let pr = if ending == Ending::DetachedPanic {
+            // detached: wait for its end by other means, then give the runtime a moment to put
+            // the stack back into the pool
+            drop(ph);
+            let mut spins = 0u32;
+            while !FINISHED[pred_id as usize].load(Ordering::Relaxed) {
+                rt::nap(20_000);
+                spins += 1;
+                if spins > 5_000 {
+                    violation(&format!("detached predecessor {} never finished", pred_id));
+                }
+            }
+            rt::nap(50_000);
+            Ok(())
+        } else {
+            ph.join()
+        };
         o.done();
         drop(held.take());
         match (ending, &pr) {
@@ -357,6 +388,7 @@ pub fn run(seed: u64, mut ov: impl FnMut(&mut engine::Cfg)) -> ! {
             (Ending::CancelPostRace, Err(e)) | (Ending::CancelUnlockRace, Err(e))
                 if matches!(e.downcast_ref::<generator::Error>(), Some(generator::Error::Cancel)) => {}
             (Ending::CancelPostRace, Ok(())) | (Ending::CancelUnlockRace, Ok(())) => {}
+            (Ending::DetachedPanic, Ok(())) => {}
             (Ending::Normal, Ok(())) | (Ending::TimedOutPark, Ok(())) | (Ending::TimedOutSem, Ok(())) | (Ending::SelectRace, Ok(())) => {}
             _ => violation(&format!("predecessor {} ({:?}) ended unexpectedly: ok={}", pred_id, ending, pr.is_ok())),
         }
@@ -426,6 +458,11 @@ pub fn run(seed: u64, mut ov: impl FnMut(&mut engine::Cfg)) -> ! {
                         rt::set_flag(&ready2);
                         coroutine::yield_now();
                     }
+                    First::CancelledPark => {
+                        rt::set_flag(&ready2);
+                        coroutine::park();
+                        coroutine::park();
+                    }
                     First::IoRead => {
                         use std::io::Read;
                         let mut rd = io_rd.unwrap();
@@ -462,6 +499,7 @@ pub fn run(seed: u64, mut ov: impl FnMut(&mut engine::Cfg)) -> ! {
             First::Recv => {
                 let _ = tx.send(42);
             }
+            First::CancelledPark => unsafe { sh.coroutine().cancel() },
             First::IoRead => {
                 use std::io::Write;
                 let mut a = io_a.unwrap();
@@ -474,6 +512,17 @@ pub fn run(seed: u64, mut ov: impl FnMut(&mut engine::Cfg)) -> ! {
         let sr = sh.join();
         o.done();
         match sr {
+            Err(e) if first_action == First::CancelledPark => {
+                if !matches!(e.downcast_ref::<generator::Error>(), Some(generator::Error::Cancel)) {
+                    violation(&format!(
+                        "fresh coroutine {} was cancelled in its first park, but its join reports a foreign panic ({}) instead of Cancel: left behind by the stack's previous user ({:?})",
+                        succ_id,
+                        crate::panic_msg(&e),
+                        ending
+                    ));
+                }
+            }
+            Ok(_) if first_action == First::CancelledPark => violation(&format!("successor {} was cancelled in its first park but ended normally", succ_id)),
             Ok(v) if v == succ_id => {}
             Ok(v) => violation(&format!("successor {} returned {}", succ_id, v)),
             Err(e) => violation(&format!(
